@@ -66,7 +66,7 @@ Verdict(r) ==
       isasm == r.kind = "asm"          \* a hand-written assembly program: no source-level call sequence to compare with
       xr == IF isasm THEN [st |-> "exit", amb |-> FALSE, calls |-> <<>>] ELSE X!Run(r.xprog)
       base == [id |-> r.id, n |-> f.k, entries |-> Len(f.ents), drift |-> f.dr]
-  IN IF W.err # "" THEN base @@ [v |-> "walk", why |-> W.err]
+  IN IF W.err # "" THEN [id |-> r.id, n |-> 0, entries |-> 0, drift |-> 0, v |-> "walk", why |-> W.err]      \* (no label table to replay against)
      ELSE IF ~symOK THEN base @@ [v |-> "bad", why |-> "symbol table does not list each procedure once at its entry"]
      ELSE IF ~isasm /\ \E nm \in DOMAIN r.xprog.procs : \A i \in 1..Len(r.symtab) : r.symtab[i][1] # nm
           THEN base @@ [v |-> "bad", why |-> "a procedure of the source program is missing from the symbol table"]
